@@ -276,3 +276,16 @@ pub fn apply_fault(s: &mut Stream, f: &StreamFault) -> bool {
         }
     }
 }
+
+pub fn render(s: &Stream) -> String {
+    match s {
+        Stream::Tokens { readable, tokens } => {
+            let mut out = format!("tokens(readable={readable}) ");
+            for (i, t) in tokens.iter().enumerate() {
+                out.push_str(&format!("[{i}]{t:?} "));
+            }
+            out
+        }
+        Stream::Json(b) => format!("json {}", String::from_utf8_lossy(b)),
+    }
+}
